@@ -199,6 +199,22 @@ def make_core(env):
                 return False
             return super().change_track(track)
 
+        # faults outside the modelled environment (monitor-only stage core_faulty.py):
+        # env.fault = {"play": (exception class, set of track indices), "prepare_change": class}
+        def play(self):
+            f = getattr(env, "fault", {}).get("play")
+            if f and env.audio.uri is not None and env.index_of_uri(env.audio.uri) in f[1]:
+                env.tick_backend()
+                raise f[0]("scripted play() failure")
+            return super().play()
+
+        def prepare_change(self):
+            f = getattr(env, "fault", {}).get("prepare_change")
+            if f:
+                env.tick_backend()
+                raise f("scripted prepare_change() failure")
+            return super().prepare_change()
+
     class ProviderProxy:
         """Calls the provider synchronously and wraps results/exceptions in futures."""
 
